@@ -23,7 +23,7 @@ type VerifCADelegate struct {
 }
 
 func (d *VerifCADelegate) State() *state.Store { return d.StoreFn() }
-func (d *VerifCADelegate) IsLeader() bool       { return true }
+func (d *VerifCADelegate) IsLeader() bool      { return true }
 func (d *VerifCADelegate) ProviderState(id string) (*structs.CAConsulProviderState, error) {
 	_, s, err := d.StoreFn().CAProviderState(id)
 	return s, err
